@@ -39,6 +39,12 @@ var profiles = map[string]Profile{
 		AllowLookup: []bool{true, true, false}, Expiry: []int64{0}, CacheKinds: []string{"none", "empty"},
 		Deadlines: []int64{0}, LookupDl: []int64{0, 0, 10000, 60000}, AdvanceMs: []int64{5000, 10000, 100000, 300000},
 		Weights: map[string]int{"respond": 20, "fail": 10, "svc": 6, "advance": 22, "lookup": 25, "cancel": 8, "read": 5, "handle": 4, "refresh": 4}, Steps: 50},
+	// long histories dominated by lookups that fail (service errors, cancelled and expired callers): whatever a failed lookup
+	// leaves behind must not wear the store out -- the next lookup of a healthy name is sent and answered as the first was
+	"lookupwear": {Name: "lookupwear", Names: allNames, Callers: allCallers, Declared: [][]string{{"a"}},
+		AllowLookup: []bool{true}, Expiry: []int64{0}, CacheKinds: []string{"none", "empty"},
+		Deadlines: []int64{0}, LookupDl: []int64{0, 10000, 10000, 60000}, AdvanceMs: []int64{5000, 10000, 300000},
+		Weights: map[string]int{"respond": 14, "fail": 28, "svc": 4, "advance": 12, "lookup": 34, "cancel": 6, "read": 2}, Steps: 140},
 	"reads": {Name: "reads", Names: allNames, Callers: allCallers, Declared: [][]string{{"a"}, {"a", "b"}}, Auto: true,
 		AllowLookup: []bool{true, true, false}, Expiry: []int64{0, 30000}, CacheKinds: []string{"undeclared", "empty", "complete"},
 		Deadlines: []int64{0}, LookupDl: []int64{0, 10000}, AdvanceMs: []int64{1000, 31000},
